@@ -184,10 +184,12 @@ def _t_cholesky(c):
     n = c.int(1, 3)
 
     def fn(ns, x):
+        if ns.iscomplexobj(x):  # Hermitian positive definite: A = L L^H with a real positive diagonal (no gauge freedom)
+            return ns.linalg.cholesky((x + ns.conj(_T(ns, x))) / 2)
         return ns.linalg.cholesky((x + _T(ns, x)) / 2)
 
     return Call("l:cholesky", fn, [b + (n, n)], dom=(-1, 1), prep=_sym_spectrum_prep(n, pd=True), desc=["cholesky", list(b), n],
-                feats={"fn": "cholesky", "batch": len(b), "n": n}, cplx=False)
+                feats={"fn": "cholesky", "batch": len(b), "n": n})
 
 
 def _eig_prep(n):
